@@ -56,4 +56,13 @@ def base_family(observer=None):
     add("H_ttl_and_self_trade", [S(0, 2, True, True, maxNormalOrders=2, maxHighFrequencyOrders=1, highFrequencySubmitRate=0.5),
                                  S(1, 2, True, True, maxNormalOrders=2, maxHighFrequencyOrders=1)],
         agents(2, 1, menu_n=MENU_X, prog_n=[[8, 1, 7, 1], [2, 6, 2, 2]], prog_h=[[1, 5]]))
+    # two plain markets + an index market; orders, cancels and fills on all of them, an HFT agent on the index
+    mk3 = [dict(name="M0", shares=1), dict(name="M1", shares=2), dict(name="IDX", cls="ProbeIndexMarket", components=["M0", "M1"])]
+    menu3 = [[], [bl(0, 101)], [sl(0, 99)], [bl(1, 101, 2)], [sl(1, 99, 2)], [bl(2, 101)], [sl(2, 99)], [CL], [bl(0, 100), sl(1, 100), bl(2, 100)],
+             [sm(1, 1)]]
+    menu3h = [[], [bl(2, 99), sl(2, 101)], [sl(2, 99)], [bm(1, 2)], [CL]]
+    add("M_three_markets_index", [S(0, 2, True, False, maxNormalOrders=2, maxHighFrequencyOrders=1), S(1, 3, True, True, maxNormalOrders=2, maxHighFrequencyOrders=1)],
+        [dict(name="A0", menu=menu3, program=[1, 3, 5, 7, 8], markets=["M0", "M1", "IDX"]),
+         dict(name="A1", menu=menu3, program=[2, 4, 6, 4, 2], markets=["M0", "M1", "IDX"]),
+         dict(name="H0", cls="ScriptedHFAgent", menu=menu3h, program=[1, 2, 3], markets=["M0", "M1", "IDX"])], markets=mk3)
     return sc
